@@ -210,3 +210,132 @@ func ruleBlockSizeDefault(c *Ctx, r *Report, prefix string) {
 	}
 	r.Check(bad == "" && n >= 1, rule, FnName(fn), c.Pos(fn.Pos()), "BlockSize == 0 is replaced by maxInt64 (a single block)", bad)
 }
+
+// ---- CE-HASHCHAIN: the hash chains of the default match finder reach every position in the window ----
+// putEntry / getMatches are evaluated as a data structure, without the rolling hash: after every
+// insertion of a sequence of hash values into a table with a ring of C chain links, getMatches(h) has
+// to return exactly the positions in the window [hoff+1-buffered, hoff] that were inserted with the
+// same table slot, most recent first (up to the length of the result slice). A chain that loses
+// positions after the ring has wrapped still round-trips, but repeats inside the dictionary are no
+// longer found (C17).
+func ruleHashChain(c *Ctx, r *Report, prefix string) {
+	rule := prefix + "CE-HASHCHAIN"
+	put := c.Func("lzma", "hashTable.putEntry")
+	get := c.Func("lzma", "hashTable.getMatches")
+	ht := c.Type("lzma", "hashTable")
+	if put == nil || get == nil || ht == nil || put.Name() != "putEntry" || get.Name() != "getMatches" {
+		return
+	}
+	st, _ := ht.Underlying().(*types.Struct)
+	iT, iData, iFront, iMask, iHoff := fieldIndex(ht, "t"), fieldIndex(ht, "data"), fieldIndex(ht, "front"), fieldIndex(ht, "mask"), fieldIndex(ht, "hoff")
+	if st != nil && (iT < 0 || iData < 0 || iFront < 0 || iMask < 0 || iHoff < 0) {
+		// renamed fields: identify them by their types (all plain int fields start at 0 anyway)
+		iT, iData, iMask, iHoff, iFront = -1, -1, -1, -1, -1
+		uniq := func(cur *int, i int) {
+			if *cur == -1 {
+				*cur = i
+			} else {
+				*cur = -2
+			}
+		}
+		for i := 0; i < st.NumFields(); i++ {
+			switch st.Field(i).Type().String() {
+			case "[]int64":
+				uniq(&iT, i)
+			case "[]uint32":
+				uniq(&iData, i)
+			case "uint64":
+				uniq(&iMask, i)
+			case "int64":
+				uniq(&iHoff, i)
+			case "int":
+				if iFront < 0 {
+					iFront = i
+				}
+			}
+		}
+	}
+	if st == nil || iT < 0 || iData < 0 || iFront < 0 || iMask < 0 || iHoff < 0 {
+		r.Undecided(rule, "hashTable", c.Pos(get.Pos()), "cannot identify the table, the chain ring, the mask and the offset of hashTable")
+		return
+	}
+	mkSlice := func(in *Interp, n int, t types.Type) aval {
+		el := t.Underlying().(*types.Slice).Elem()
+		arr := make([]*cell, n)
+		for i := range arr {
+			arr[i] = in.newCellOf(el)
+			arr[i].v = aInt(0, el)
+		}
+		return aval{k: kSlice, arr: arr, lo: 0, hi: n, typ: t}
+	}
+	bad, calls := "", 0
+	run := func(C int, seq []int) {
+		in := NewInterp(c)
+		in.MaxSteps = 1 << 30
+		cl := in.newCellOf(ht)
+		cl.field(iT).v = mkSlice(in, 4, st.Field(iT).Type())
+		cl.field(iData).v = mkSlice(in, C, st.Field(iData).Type())
+		for i := 0; i < st.NumFields(); i++ {
+			if st.Field(i).Type().String() == "int" {
+				cl.field(i).v = aInt(0, types.Typ[types.Int])
+			}
+		}
+		cl.field(iMask).v = aInt(3, st.Field(iMask).Type())
+		cl.field(iHoff).v = aInt(-1, types.Typ[types.Int64])
+		recv := aval{k: kPtr, cell: cl}
+		for pos, h := range seq {
+			cl.field(iHoff).v = aInt(int64(pos), types.Typ[types.Int64])
+			res := in.Call(put, []aval{recv, aInt(int64(h), put.Params[1].Type()), aInt(int64(pos), types.Typ[types.Int64])})
+			calls++
+			if !res.OK || res.Panicked {
+				bad = fmt.Sprintf("cannot evaluate putEntry (ring %d, step %d): %s", C, pos, in.Undecided)
+				return
+			}
+			buffered := pos + 1
+			if buffered > C {
+				buffered = C
+			}
+			for q := 0; q < 2; q++ {
+				out := mkSlice(in, 4, get.Params[2].Type())
+				res := in.Call(get, []aval{recv, aInt(int64(q), get.Params[1].Type()), out})
+				calls++
+				if !res.OK || res.Panicked || len(res.Rets) != 1 {
+					bad = fmt.Sprintf("cannot evaluate getMatches (ring %d, step %d): %s", C, pos, in.Undecided)
+					return
+				}
+				n, _ := res.Rets[0].Int()
+				var got, want []int64
+				for i := 0; i < int(n) && i < 4; i++ {
+					v, _ := out.arr[i].v.Int()
+					got = append(got, v)
+				}
+				for j := pos; j > pos-buffered && len(want) < 4; j-- {
+					if seq[j] == q {
+						want = append(want, int64(j))
+					}
+				}
+				if fmt.Sprint(got) != fmt.Sprint(want) {
+					bad = fmt.Sprintf("ring of %d links, hash values %v inserted: getMatches(%d) = %v, the positions in the window with that hash are %v: earlier occurrences inside the dictionary are not found (or positions outside it are offered)", C, seq[:pos+1], q, got, want)
+					return
+				}
+			}
+		}
+	}
+	for v := 0; v < 256 && bad == ""; v++ {
+		seq := make([]int, 8)
+		for i := range seq {
+			seq[i] = v >> uint(i) & 1
+		}
+		run(3, seq)
+	}
+	x := uint32(12345)
+	for k := 0; k < 48 && bad == ""; k++ {
+		seq := make([]int, 11)
+		for i := range seq {
+			x = x*1664525 + 1013904223
+			seq[i] = int(x >> 30 & 1)
+		}
+		run(4, seq)
+	}
+	r.Check(bad == "", rule, "hashTable.getMatches", c.Pos(get.Pos()), fmt.Sprintf("chains return exactly the same-hash positions of the window on %d evaluated calls (rings of 3 and 4 links, before and after the ring wraps)", calls), bad)
+}
